@@ -908,6 +908,9 @@ class TestResult(unittest.TestResult):
         self._stderr_buffer = None
         self._original_stdout = sys.stdout
         self._original_stderr = sys.stderr
+        # A class or module fixture of a suite-like test may report a
+        # failure or an error before any test of this result has started.
+        self._start_time = time.time()
 
     def testSetUp(self):
         """A layer may define a setup method to be called before each
